@@ -16,6 +16,8 @@ def evaluate(patch, config="all"):
     work = os.path.join(tmp, "repo")
     subprocess.run(["git", "-C", REPO, "worktree", "add", "--detach", "-q", work, "HEAD"], check=True)
     try:
+        if os.path.exists(os.path.join(REPO, "Cargo.lock")) and not os.path.exists(os.path.join(work, "Cargo.lock")):
+            shutil.copy(os.path.join(REPO, "Cargo.lock"), os.path.join(work, "Cargo.lock"))
         p = subprocess.run(["git", "-C", work, "apply", patch], capture_output=True, text=True)
         if p.returncode != 0:
             return None, "patch does not apply: " + p.stderr[:200]
